@@ -259,11 +259,22 @@ func TestLedgerConservation(t *testing.T) {
 		unknownGroup := []byte("no-such-group")
 		genesisGroup := boot.Groups().LastGroup().Id
 
+		// one case in four is a miner-management history (several accounts applying, topping up and refunding
+		// in the same blocks), the others mix all transaction kinds
+		minerFocus := rapid.IntRange(0, 3).Draw(t, "minerFocus") == 0
+		if minerFocus {
+			stats.Class("history:miner_focus")
+		}
+
 		// block 1: funding and deployments
 		var b1 []*types.Transaction
 		var b1meta []blockgen.Tx
 		for i := 0; i < 4; i++ {
-			amt := rapid.SampledFrom([]string{"0.002", "5", "450", "2500", "100000"}).Draw(t, fmt.Sprintf("fund%d", i))
+			funds := []string{"0.002", "5", "450", "2500", "100000"}
+			if minerFocus {
+				funds = []string{"450", "2500", "100000", "100000"}
+			}
+			amt := rapid.SampledFrom(funds).Draw(t, fmt.Sprintf("fund%d", i))
 			b1 = append(b1, txgen.Transfer(txgen.Faucets[0], nil, [][2]string{{blockgen.Addr(i), amt}}, uint64(i+1), fmt.Sprintf("%s-f%d", salt, i)))
 		}
 		for i, n := 0, rapid.IntRange(0, 3).Draw(t, "nDeploy"); i < n; i++ {
@@ -292,6 +303,17 @@ func TestLedgerConservation(t *testing.T) {
 				txs = b1
 				meta = b1meta
 			} else {
+				if minerFocus && b == 1 {
+					// most accounts start the history with a miner of their own
+					for src := 0; src < 4; src++ {
+						if rapid.IntRange(0, 3).Draw(t, "ownApply") > 0 {
+							nonces[src]++
+							x := blockgen.OwnApply(t, src, nonces[src], fmt.Sprintf("%s-own%d", salt, src))
+							meta = append(meta, x)
+							txs = append(txs, x.Tx)
+						}
+					}
+				}
 				n := rapid.IntRange(1, 8).Draw(t, "nTx")
 				for i := 0; i < n; i++ {
 					src := rapid.IntRange(0, 3).Draw(t, "src")
@@ -299,7 +321,11 @@ func TestLedgerConservation(t *testing.T) {
 					s := fmt.Sprintf("%s-b%d-%d", salt, b, i)
 					var x blockgen.Tx
 					gen := func(exclude map[string]bool) blockgen.Tx {
-						switch rapid.SampledFrom([]string{"transfer", "transfer", "miner", "contract", "contract", "contract", "token", "token", "eth", "authcall"}).Draw(t, "txKind") {
+						kinds := []string{"transfer", "transfer", "miner", "contract", "contract", "contract", "token", "token", "eth", "authcall"}
+						if minerFocus {
+							kinds = []string{"miner", "miner", "miner", "miner", "transfer", "contract"}
+						}
+						switch rapid.SampledFrom(kinds).Draw(t, "txKind") {
 						case "authcall":
 							if authCaller == "" {
 								return blockgen.GenTransfer(t, src, nonces[src], s, false)
@@ -468,6 +494,30 @@ func TestLedgerConservation(t *testing.T) {
 				if r.Status != types.ReceiptStatusSuccessful && i < len(meta) && (strings.Contains(meta[i].Desc, "CALL(") || strings.Contains(meta[i].Desc, "targets")) {
 					failedAfterMove = true
 				}
+			}
+			okRefunds := 0
+			for _, r := range res.Receipts {
+				for _, m := range meta {
+					if os.Getenv("VERIF_DEBUG_C06") != "" && m.Tx.Hash == r.TxHash && m.Kind == "miner_refund" && r.Status != types.ReceiptStatusSuccessful {
+						msg := r.Msg
+						if i := strings.Index(msg, "err:"); i >= 0 {
+							msg = msg[i:]
+						}
+						if len(msg) > 60 {
+							msg = msg[:60]
+						}
+						stats.Class("dbg_refund_fail:" + msg)
+					}
+					if m.Tx.Hash == r.TxHash && strings.HasPrefix(m.Kind, "miner_") && r.Status == types.ReceiptStatusSuccessful {
+						stats.Class("tx_" + m.Kind + "_ok")
+						if m.Kind == "miner_refund" {
+							okRefunds++
+						}
+					}
+				}
+			}
+			if okRefunds >= 2 {
+				stats.Class("block:two_or_more_successful_refunds")
 			}
 			for _, m := range meta {
 				stats.Class("tx_" + m.Kind)
